@@ -37,10 +37,6 @@ open PikaVerif PikaVerif.SchedFromLife
 def SFReach (c : SchedFromLife.Cfg) (s : SchedFromLife.St) : Prop :=
   ∃ log, runLog SchedFromLife.step (SchedFromLife.init c) log = some s
 
-theorem SFReach.full {c : SchedFromLife.Cfg} {s : SchedFromLife.St} (hc : c.ok) (hr : SFReach c s) : Full s := by
-  obtain ⟨log, hl⟩ := hr
-  exact full_of_runLog hc hl
-
 /-- **Exactly one downstream completion.**  In every reachable state the downstream receiver has been completed
     at most once, and before the completion there is no result.  Once the predecessor has completed, the
     scheduler has completed if its operation state was started, every call has returned and the process was not
@@ -51,7 +47,7 @@ theorem C03x_sf_exactly_one_completion (c : SchedFromLife.Cfg) (hc : c.ok) (s : 
     (s.delivered = 0 → s.result = none) ∧
     (quiescent s → s.aborted = false → s.predSig ≠ none → (s.sopArmed = true → s.schSig ≠ none) →
       s.delivered = 1) := by
-  have hf := hr.full hc
+  have hf : Full s := by obtain ⟨log0, hl0⟩ := hr; exact full_of_runLog hc hl0
   refine ⟨hf.c.delivLe, hf.r.resNone, fun hq ha hp hs => ?_⟩
   rcases hf.c.progress hp with h | h | h | h
   · exact h
@@ -76,7 +72,7 @@ theorem C03x_sf_completion_is_the_denoted_one (c : SchedFromLife.Cfg) (hc : c.ok
     (∀ v q, s.predSig = some (.value v) → s.schSig = some q → q.isValue = false → s.result = some q) ∧
     s.predSig ≠ none ∧ (∀ v, s.predSig = some (.value v) → s.schSig ≠ none) ∧
     s.result = expected s ∧ s.result ≠ none := by
-  have hf := hr.full hc
+  have hf : Full s := by obtain ⟨log0, hl0⟩ := hr; exact full_of_runLog hc hl0
   have hp : s.predSig ≠ none := fun h => by have := (hf.c.predNone h).2.1; omega
   refine ⟨fun p h1 h2 => hf.r.resP p hd h1 h2, fun v w h1 h2 => ?_, fun v q h1 h2 h3 => ?_, hp,
     fun v h1 => hf.r.resS v hd h1, ?_, ?_⟩
@@ -111,7 +107,7 @@ theorem C03x_sf_completion_is_the_denoted_one (c : SchedFromLife.Cfg) (hc : c.ok
 theorem C03x_sf_forward_is_last_access (c : SchedFromLife.Cfg) (hc : c.ok) (s s' : SchedFromLife.St)
     (e : SchedFromLife.Ev) (hr : SFReach c s) (hd : s.delivered = 1) (h : SchedFromLife.step s e = some s') :
     touches e = false := by
-  have hf := hr.full hc
+  have hf : Full s := by obtain ⟨log0, hl0⟩ := hr; exact full_of_runLog hc hl0
   obtain ⟨c0,c1,c2,c3,c4,c5,c6,c7,c8,c9,c10,c11,c12,c13,c14,c15,c16⟩ := hf.c
   have hnb : ∀ t, busy (s.pc t) = false := by
     intro t
@@ -219,7 +215,7 @@ theorem C03x_sf_forward_is_last_access_log (c : SchedFromLife.Cfg) (hc : c.ok) (
 theorem C03x_sf_reset_precedes_forward (c : SchedFromLife.Cfg) (hc : c.ok) (s s' : SchedFromLife.St) (t : Nat)
     (q : SchedFromLife.Sig) (hr : SFReach c s) (h : SchedFromLife.step s (.fwd t q) = some s') :
     s.sop = false ∧ s.sopDtor = s.sopCtor ∧ s.delivered = 0 ∧ s.freed = false := by
-  have hf := hr.full hc
+  have hf : Full s := by obtain ⟨log0, hl0⟩ := hr; exact full_of_runLog hc hl0
   have key : s.delivered = 0 → s.sop = false → s.sop = false ∧ s.sopDtor = s.sopCtor ∧ s.delivered = 0 ∧ s.freed = false := by
     intro hd hs
     have hnf : s.freed = false := by
@@ -254,7 +250,7 @@ theorem C03x_sf_no_touch_after_release (c : SchedFromLife.Cfg) (hc : c.ok) (s : 
     (hr : SFReach c s) :
     s.uaf = false ∧ s.nfree ≤ 1 ∧ (s.freed = true ↔ s.nfree = 1) ∧ (s.freed = true → s.delivered = 1) ∧
     (c.selfdel = true → (s.freed = true ↔ s.delivered = 1)) := by
-  have hf := hr.full hc
+  have hf : Full s := by obtain ⟨log0, hl0⟩ := hr; exact full_of_runLog hc hl0
   obtain ⟨log, hl⟩ := hr
   have hcfg : s.cfg = c := by simpa [SchedFromLife.init] using cfg_of_runLog hl
   have hn := hf.o.nfreeEq
@@ -273,7 +269,7 @@ theorem C03x_sf_destroyed_exactly_once (c : SchedFromLife.Cfg) (hc : c.ok) (s : 
     (s.delivered = 1 → s.sopDtor = s.sopCtor) ∧
     (s.freed = true → s.tsDtor = s.tsCtor ∧ s.sopDtor = s.sopCtor ∧ s.nfree = 1) ∧
     (c.selfdel = true → s.delivered = 1 → s.freed = true ∧ s.tsDtor = s.tsCtor ∧ s.sopDtor = s.sopCtor ∧ s.nfree = 1) := by
-  have hf := hr.full hc
+  have hf : Full s := by obtain ⟨log0, hl0⟩ := hr; exact full_of_runLog hc hl0
   obtain ⟨log, hl⟩ := hr
   have hcfg : s.cfg = c := by simpa [SchedFromLife.init] using cfg_of_runLog hl
   have hn := hf.o.nfreeEq
